@@ -695,3 +695,43 @@ def oracle_monotone(ex, e, F, digits, mat, domains, lev, sc_impl, inv_f, bad_imp
     out['results'].append(res)
     out['terms'] = TM.nterms()
     return out
+
+
+def plain(prog, job, out, log=print):
+    """ordinary harness, obligations discharged by several solver processes in parallel"""
+    ex = engine.run_harness(prog, job['func'], max_unwind=job.get('unwind', 400), params=job.get('params'))
+    out['exec_s'] = round(ex.exec_time, 3)
+    out['stats'] = dict(ex.stats)
+    out['funcs'] = dict(ex.funcs_encoded)
+    out['inputs'] = ex.inputs
+    out['params'] = getattr(ex, 'params_used', {})
+    out['terms'] = TM.nterms()
+    out['n_assumptions'] = len(ex.assumptions)
+    per = {}
+    for kind in job['solvers']:
+        per[kind] = engine.discharge(ex, kind, job['timeout'] if kind != 'cvc5' else min(job['timeout'], job.get('cvc5_timeout', 120)), workers=job.get('workers', 16))
+    first = per[job['solvers'][0]]
+    out['nodes'] = first['nodes']
+    out['vacuity'] = {k: v['vacuity'] for k, v in per.items()}
+    out['solver_time'] = {k: round(v['solver_time'], 3) for k, v in per.items()}
+    out['queries'] = {k: v['queries'] for k, v in per.items()}
+    out['results'] = []
+    for i, r in enumerate(first['results']):
+        rec = {k: r.get(k) for k in ('index', 'kind', 'label', 'pos', 'fn', 'status', 'model', 'reachable', 'errors')}
+        rec['time'] = round(r['time'], 3)
+        rec['by_solver'] = {k: v['results'][i]['status'] for k, v in per.items()}
+        sts = set(rec['by_solver'].values())
+        if 'sat' in sts and 'unsat' in sts:
+            rec['status'] = 'disagree'
+        elif 'sat' in sts:
+            rec['status'] = 'sat'
+            for k, v in per.items():
+                if v['results'][i]['status'] == 'sat' and v['results'][i]['model']:
+                    rec['model'] = v['results'][i]['model']
+                    break
+        elif 'unsat' in sts:
+            rec['status'] = 'unsat'
+        else:
+            rec['status'] = 'unknown'
+        out['results'].append(rec)
+    return out
